@@ -113,28 +113,42 @@ def check(facts, timeout_ms: int, rlimit: int, tag: str):
     return r
 
 
+def _nested(t) -> bool:
+    """a conjunct with a quantifier INSIDE (not a top-level quantifier, which the quick checks have always left out)"""
+    return not z3.is_quantifier(t) and not ground(t)
+
+
 def feasible(pc, base: int | None = None) -> bool:
-    """False only when the non-quantified part of `pc` is contradictory.  `base`: index from which the conjuncts are new
-    (pc[:base] is known to have been feasible when it was checked / assumed feasible)."""
-    facts = [p for p in pc if ground(p)]
+    """False only when `pc` (without its top-level quantified facts) is contradictory.  `base`: index from which the conjuncts
+    are new (pc[:base] is known to have been feasible when it was checked / assumed feasible).
+
+    Two stages: the quantifier-free conjuncts first (milliseconds); only when that is not conclusive and conjuncts with NESTED
+    quantifiers (`not any(..)`, `a or all(..)`) are among the relevant ones, a second query with them, as the engine has
+    always done (the solver instantiates them; up to 0.3 s)."""
+    facts = [p for p in pc if not z3.is_quantifier(p)]
     if not facts:
         return True
     if base is not None and 0 < base <= len(pc):
-        new = [p for p in pc[base:] if ground(p)]
+        new = [p for p in pc[base:] if not z3.is_quantifier(p)]
         if not new:
             return True
-        old = [p for p in pc[:base] if ground(p)]
+        old = [p for p in pc[:base] if not z3.is_quantifier(p)]
         sub = cone(old, new) + new
         STATS["cone"] += len(sub)
         STATS["full"] += len(facts)
         facts = sub
-    return check(facts, 300, 400000, "sat") != z3.unsat
+    g = [p for p in facts if ground(p)]
+    if g and check(g, 300, 400000, "sat") == z3.unsat:
+        return False
+    if len(g) == len(facts):
+        return True
+    return check(facts, 300, 400000, "sat2") != z3.unsat
 
 
 def entails(pc, fact) -> bool:
     """True only when the non-quantified part of `pc` implies `fact`."""
     neg = z3.Not(fact)
-    old = [p for p in pc if ground(p)]
+    old = [p for p in pc if not z3.is_quantifier(p)]
     sub = cone(old, [neg]) + [neg]
     # the negated fact is a fresh term object each time: key on the fact itself
     STATS["calls"] += 1
